@@ -18,7 +18,7 @@ LIB = ("mc.vlib.graph",)
 RULE = ("cases = labelled DAG masks x per-edge reference kinds (d/l/n) x {API, source} build, plus BFS over "
         "histories of run()/result/Command.run() events; non-trivial = distinct (graph, kinds, build mode) programs "
         "with >=1 command plus distinct canonical history states")
-ASSUMPTIONS = ["execution observed by a verif-side command class (mc/vlib/graph.py) whose execute() logs entry/exit",
+ASSUMPTIONS = ["execution observed by a verif-side command class (mc/vlib/graph.py) whose execute() logs entry/exit; the built-in commands are observed through a counting wrapper put around their execute() in the worker process",
                "commands that raise are outside this property"]
 
 
@@ -35,6 +35,12 @@ def _mask_edges(n, mask):
 
 
 def cases(tier):
+    from ..ref import sig as SIG
+    from .. import numdrv as D
+
+    for cmd in SIG.DATA_COMMANDS:
+        for n in D.arities(cmd):
+            yield ("real", cmd, n)
     # (kind, n, lo, hi, naming, mode)
     namings = (0,) if tier == "quick" else (0, 1)
     for n in (1, 2, 3, 4):
@@ -346,8 +352,125 @@ def _run_hist(case):
     return tot
 
 
+REAL_LIBS = ("mpilot.libraries.eems.basic", "mpilot.libraries.eems.fuzzy", "mc.vlib.const")
+
+
+def _run_real(case):
+    """the BUILT-IN commands: every data command x arity x preset consuming counting producers, next to a second consumer of the same
+    producers and a consumer of its own result, both textual orders, built through the API and re-loaded from the serialised text;
+    events run(), run() again, every result: every command (producers AND built-ins, counted by a wrapper around execute) executes
+    exactly once, and at entry every referenced command is the program's own, finished command"""
+    import numpy
+    from mpilot.program import Program
+    from mpilot.commands import Command
+    from ..ref import sig as SIG
+    from .. import numdrv as D
+    from ..vlib import const as C
+
+    _, cmd, n = case
+    fin = SIG.input_fuzz(cmd) == "fz"
+    fout = cmd in SIG.FUZZY_PRODUCERS
+    slots = SIG.result_slots(cmd)
+    C.TABLE["nf"] = lambda: numpy.ma.MaskedArray([0.5, 2.0, -1.0, 0.0, 3.0], mask=[False, False, False, True, False])
+    C.TABLE["fz"] = lambda: numpy.ma.MaskedArray([0.5, 1.0, -1.0, 0.0, 0.25], mask=[False, True, False, False, False])
+    log = []
+    fed = []
+    probe = Program(libraries=REAL_LIBS)
+    classes = set(probe.command_library.values())
+    saved = {}
+    current = {"p": None}
+
+    def wrap(orig):
+        def execute(self, **kw):
+            if getattr(self, "_mc_inside", False):
+                return orig(self, **kw)  # a subclass delegating to its base class: still one execution
+            self._mc_inside = True
+            try:
+                log.append(self.result_name)
+                for v in kw.values():
+                    for c in (v if isinstance(v, (list, tuple)) else [v]):
+                        if isinstance(c, Command):
+                            own = current["p"].commands.get(c.result_name)
+                            if own is not c:
+                                fed.append("%s was handed a command object for %s that is not the program's own" % (self.result_name, c.result_name))
+                return orig(self, **kw)
+            finally:
+                self._mc_inside = False
+        return execute
+
+    for cls in classes:
+        for k in cls.__mro__:
+            if "execute" in k.__dict__ and k is not Command and k not in saved:
+                saved[k] = k.__dict__["execute"]
+                k.execute = wrap(saved[k])
+    viols, outcomes = [], {}
+    evals = 0
+    sample = None
+    try:
+        follower = ("FuzzyNot", {}) if fout else ("Copy", {})
+        for params in D.presets_small(cmd, n):
+            for order in (0, 1):
+                for mode in ("api", "src"):
+                    p = Program(libraries=REAL_LIBS)
+                    lib = p.command_library
+                    ins = ["X%d" % i for i in range(n)]
+
+                    def argsof():
+                        a = dict(params)
+                        if len(slots) == 2:
+                            a[slots[0][0]], a[slots[1][0]] = ins[0], ins[1]
+                        elif slots[0][1]:
+                            a[slots[0][0]] = list(ins)
+                        else:
+                            a[slots[0][0]] = ins[0]
+                        return a
+
+                    cmds = [("X%d" % i, lib["ConstFZ" if fin else "ConstNF"], {"Key": "fz" if fin else "nf"}) for i in range(n)]
+                    cmds += [("T", lib[cmd], argsof()), ("T2", lib[cmd], argsof()), ("W", lib[follower[0]], dict(follower[1], InFieldName="T"))]
+                    if order:
+                        cmds.reverse()
+                    for name, cls, a in cmds:
+                        p.add_command(cls, name, a)
+                    if mode == "src":
+                        p = Program.from_source(p.to_string(), libraries=REAL_LIBS)
+                    names = [c[0] for c in cmds]
+                    tag = {"command": cmd, "params": params, "order": order, "mode": mode, "source": p.to_string()}
+                    sample = tag
+                    current["p"] = p
+                    del log[:]
+                    del fed[:]
+                    try:
+                        with numpy.errstate(all="ignore"):
+                            p.run()
+                            first = {nm: log.count(nm) for nm in names}
+                            p.run()
+                            for nm in names:
+                                p.commands[nm].result
+                    except Exception as exc:
+                        outcomes["real:raised:" + type(exc).__name__] = outcomes.get("real:raised:" + type(exc).__name__, 0) + 1
+                        continue  # (a preset that raises on this data: outside this property)
+                    evals += 1
+                    final = {nm: log.count(nm) for nm in names}
+                    bad1 = {k: v for k, v in first.items() if v != 1}
+                    bad2 = {k: v for k, v in final.items() if v != first[k]}
+                    if bad1:
+                        viols.append(V("C01:real:%s:%s" % (cmd, "executed-twice" if max(bad1.values()) > 1 else "not-executed"),
+                                       "after run(): execution counts %r (every command must execute exactly once)" % (bad1,), **tag))
+                    elif bad2:
+                        viols.append(V("C01:real:%s:re-executed" % cmd, "a second run() / reading results executed again: %r" % (bad2,), **tag))
+                    elif fed:
+                        viols.append(V("C01:real:%s:fed-by-foreign-command" % cmd, fed[0], **tag))
+                    outcomes["real:ok" if not (bad1 or bad2 or fed) else "real:bad"] = outcomes.get("real:ok" if not (bad1 or bad2 or fed) else "real:bad", 0) + 1
+    finally:
+        for k, orig in saved.items():
+            k.execute = orig
+    return {"evals": max(evals, 1), "nontrivial": evals, "judged": evals, "viols": viols[:20], "outcomes": outcomes, "sample": sample, "states": 0, "transitions": 0}
+
+
 def run(case):
     case = tuple(case)
+    if case[0] == "real":
+        return _run_real(case)
     if case[0] == "graphs":
         return _run_graphs(case)
     return _run_hist(case)
